@@ -148,6 +148,39 @@ theorem C10_core_mtu_stable (conv : U32) (ops : List Op) (op : Op) (hop : ∀ m,
     (step (run (Kcp.new conv) ops) op).k.mtu = (run (Kcp.new conv) ops).mtu :=
   step_mtu _ op (run_inv _ ops (new_inv conv)) hop
 
+/-! ### 4. both refusal clauses are needed (D1, D2 re-established on the model)
+
+`setMtuUnrepaired` is `SetMtu` as it was before the two `fix:` commits (only `mtu ≤ 24` refused).  With it the
+invariant is NOT inductive and the size property fails; the witnesses are the ones of DESIGN.md section 6. -/
+
+/-- `KCP.SetMtu` before the repairs -/
+def setMtuUnrepaired (k : Kcp) (mtu : Int) : Kcp × Int :=
+  if mtu ≤ (IKCP_OVERHEAD : Int) then (k, -1)
+  else
+    let m := BitVec.ofInt 32 mtu
+    ({ k with mtu := m, mss := m - u32 IKCP_OVERHEAD, bufLen := (mtu.toNat + IKCP_OVERHEAD) * 3 }, 0)
+
+/-- a core with one full-size segment (1376 bytes) queued and the congestion window opened by a first flush -/
+def c10kq : Kcp := (flush (send (Kcp.new 7) (List.replicate 1376 0x55)).k true 0).k
+
+/-- D2: shrinking while a segment is queued — the unrepaired `SetMtu(1000)` returns 0, and the next flush hands
+the output callback an EMPTY packet and one of 1400 > 1000 bytes; `SetMtu(50)` makes flush panic.
+The repaired `SetMtu` refuses both values in this state. -/
+theorem C10_core_unrepaired_shrink_counterexample :
+    (setMtuUnrepaired c10kq 1000).2 = 0
+      ∧ (flush (setMtuUnrepaired c10kq 1000).1 true 0).outs.map List.length = [0, 1400]
+      ∧ (flush (setMtuUnrepaired c10kq 50).1 true 0).panic = true
+      ∧ ¬ InvMss (setMtuUnrepaired c10kq 1000).1
+      ∧ setMtu c10kq 1000 = (c10kq, -1) ∧ setMtu c10kq 50 = (c10kq, -1) := by decide +kernel
+
+/-- D1: an MTU whose segment size exceeds the pool buffers — the unrepaired `SetMtu(5000)` returns 0 and
+`Send` of 4000 bytes panics (`Get()[:4000]`, capacity `mtuLimit`).  The repaired `SetMtu` refuses 5000. -/
+theorem C10_core_unrepaired_big_counterexample :
+    (setMtuUnrepaired (Kcp.new 7) 5000).2 = 0
+      ∧ (send (setMtuUnrepaired (Kcp.new 7) 5000).1 (List.replicate 4000 1)).panic = true
+      ∧ ¬ InvMss (setMtuUnrepaired (Kcp.new 7) 5000).1
+      ∧ setMtu (Kcp.new 7) 5000 = (Kcp.new 7, -1) := by decide +kernel
+
 /-! ### non-vacuity: concrete states and histories (evaluated by the kernel) -/
 
 /-- a core with one queued segment of 200 bytes (default MTU 1400) -/
